@@ -188,8 +188,10 @@ def check(ctx, crate, rule, prefixes, tag=""):
         cr, wr = signature(crate, k, sf)
         if ref is None:
             # a function that is not in the reviewed table and was not inlined (recursive / async / uncalled): report its effects
-            if cr or wr:
-                ctx.ob(R, k, "unreviewed-function", False, "", "function is not in the reviewed effect table (cond-reads %s, writes %s)" % (sorted(cr), sorted(wr)))
+            # (only state-modifying ones are reported: a new read-only accessor cannot break an anchored mechanism)
+            if wr:
+                ctx.ob(R, k, "unreviewed-function-modifies:%s" % ",".join(sorted(wr)), False, "",
+                       "a function that is not in the reviewed effect table (and is not a helper that could be inlined) modifies %s" % ", ".join(sorted(wr)))
             continue
         n += 1
         ok_c, ok_w = set(ref["cond_reads"]), set(ref["writes"])
